@@ -1,5 +1,6 @@
 import GoCrypt.Proofs.Parse
 import GoCrypt.Spec.RefParse
+import GoCrypt.Proofs.ParseRef
 
 /-!
 # C11 — the hash parser terminates, loses no input and leaks no goroutine
@@ -128,6 +129,23 @@ theorem lexer_never_blocked (s : Bytes) : consumed (tokens s) = (tokens s).lengt
       · simp only [hc, hu, if_false]
         exact lexFrag_consumed _ _ _
 
+/-- (e) The parser equals the independent split-based reference parser on every input — trees,
+node positions and error offsets included. -/
+theorem parse_eq_ref (s : Bytes) : parse s = GoCrypt.RefParse.refParse s := Parse.parse_eq_ref s
+
+/-- No value text contains a delimiter: comma-joined values never hide inside a value node. -/
+theorem values_no_delim (s : Bytes) (t : Tree) (h : parse s = .ok t) :
+    ∀ n ∈ t.nodes, ∀ c ∈ n.val, c ≠ dollar ∧ c ≠ comma := Parse.values_no_delim s t h
+
+/-- Comma-joined values always surface as exactly one group: fragments correspond one-to-one, in
+order, to the `$`-separated pieces after the prefix (an empty last piece yields no fragment), and a
+fragment is a group iff its piece contains a comma. -/
+theorem groups_surface_once (s : Bytes) (t : Tree) (h : parse s = .ok t) :
+    ∃ rest, GoCrypt.RefParse.refPrefix s = .ok (t.pfx, rest) ∧
+      t.frags.map Frag.isGroup =
+        (trimLast (GoCrypt.RefParse.splitOn dollar rest)).map (fun p => p.contains comma) :=
+  Parse.frag_group_iff_comma s t h
+
 /-! Non-vacuity: concrete inputs meeting the hypotheses. -/
 -- "$x$a=1,b=2," : the group before the trailing comma is kept
 example : parse [36, 120, 36, 97, 61, 49, 44, 98, 61, 50, 44] =
@@ -145,5 +163,8 @@ example : parse [36, 49, 36, 95, 97, 98, 99] = .ok ⟨some [36, 49, 36], [.value
 #print axioms spans_exact
 #print axioms groups_nonempty
 #print axioms lexer_never_blocked
+#print axioms parse_eq_ref
+#print axioms values_no_delim
+#print axioms groups_surface_once
 
 end GoCrypt.C11
